@@ -4,22 +4,12 @@ From Adapt Require Import Num.Qaux Vpsc.VpscSpec Vpsc.VpscModel Vpsc.VpscInv Vps
   Vpsc.StaticInv Vpsc.StaticInvB Vpsc.StaticGeom Vpsc.StaticDag Vpsc.StaticRefine Vpsc.StaticRefineEx Vpsc.StaticOutHeap.
 Local Open Scope Q_scope.
 
-Definition mx_returns : bool :=
-  match merge_right (static_init mx_vs mx_cs) 0 with Ok s' => all_satb s' | _ => false end.
-Lemma mx_returns_true : mx_returns = true. Proof. vm_compute. reflexivity. Qed.
-
 Example merge_right_all_sat_closed_example :
   let s := static_init mx_vs mx_cs in
   MRI (base s) 0 /\ inhabited (base s) 0 /\ T2 s /\ length (ctime s) = length (scons (base s)) /\
   (length (blocks (base s)) <= length (bout s))%nat /\
   (exists s', merge_right s 0 = Ok s') /\ slack_val (base s) 0 < 0.
 Proof.
-  cbv zeta. split; [exact mx_MRI|]. split; [|split; [|split; [|split; [|split]]]].
-  - exists O. split; vm_compute; [lia | reflexivity].
-  - intros B. unfold btime_of, static_init. cbn [btime ctr]. rewrite nth_repeat_O. lia.
-  - vm_compute. reflexivity.
-  - vm_compute. lia.
-  - pose proof mx_returns_true as P. unfold mx_returns in P.
-    destruct (merge_right (static_init mx_vs mx_cs) 0) as [s'| |]; try discriminate. exists s'. reflexivity.
-  - vm_compute. reflexivity.
+  cbv zeta. split; [exact mx_MRI|]. split; [exact mx_inh|]. split; [exact mx_T2|]. split; [exact mx_lct|].
+  split; [exact mx_lbo|]. destruct merge_right_all_sat_example as [_ [_ [A B]]]. split; assumption.
 Qed.
